@@ -79,7 +79,7 @@ def r7_1(ctx):
             sinks.append((c, c.args[1], "set_shape width", "elem"))
         elif fn.endswith(".get_top") or fn.endswith(".get_bottom") or fn.endswith(".get_row"):
             sinks.append((c, c.args[0] if c.args else None, fn.split(".")[-1], "vector"))
-    ctx.floor(len(sinks), 8, "width sinks in Table._render")
+    ctx.floor(len(sinks), 4, "width sinks in Table._render")
     for c, arg, what, kind in sinks:
         where = f"{f.module.relpath}:{c.lineno}"
         if kind == "vector":
